@@ -76,9 +76,98 @@ def configs(tier):
     for n in BOOLS[:3] + STRS[:1]:
         c.append({"kind": "written", "name": n, "L": L})
     c.append({"kind": "unknown", "L": 3})
+    # documented types: every numeric parameter against the type its documentation states
+    c.append({"kind": "doctype"})
     k = 1 if tier == "quick" else 4
     c += [{"kind": "xh", "func": f, "timeout": t * k, "desc": d} for f, t, d in XH]
     return c
+
+
+def documented_types():
+    """{parameter: (type, documented default text)} read from the documentation strings
+    that follow the assignments in Profile.__init__ ("Default: <literal>")."""
+    import ast
+    import re
+    import inspect
+    import aldy.profile as pm
+
+    tree = ast.parse(inspect.getsource(pm))
+    out = {}
+    for cls in [n for n in ast.walk(tree) if isinstance(n, ast.ClassDef)
+                and n.name == "Profile"]:
+        init = [n for n in cls.body if isinstance(n, ast.FunctionDef)
+                and n.name == "__init__"][0]
+        body = init.body
+        for i, st in enumerate(body[:-1]):
+            if isinstance(st, ast.Assign) and isinstance(st.targets[0], ast.Attribute) \
+                    and isinstance(body[i + 1], ast.Expr) \
+                    and isinstance(getattr(body[i + 1], "value", None), ast.Constant) \
+                    and isinstance(body[i + 1].value.value, str):
+                m = re.search(r"Default:\s*`?([^\s`(]+)", body[i + 1].value.value)
+                if not m:
+                    continue
+                lit = m.group(1).rstrip(".,")
+                if lit in ("True", "False"):
+                    t = bool
+                elif re.fullmatch(r"-?\d+", lit):
+                    t = int
+                elif re.fullmatch(r"-?\d*\.\d+(e-?\d+)?|-?\d+e-?\d+", lit):
+                    t = float
+                else:
+                    continue
+                out[st.targets[0].attr] = (t, lit)
+    return out
+
+
+def run_doctype(cfg):
+    res = new_result(cfg)
+    eng = Engine(name="c18d")
+    doc = documented_types()
+    names = sorted(n for n, (t, _) in doc.items() if t in (int, float))
+    ni, vi = z3.Int("param"), z3.Int("value")
+    floats = [0.5, 2.5, 1e-3, 7.0]
+    ints = [0, 3, 12]
+
+    def run():
+        n = names[eng.choose(ni, range(len(names)))]
+        t = doc[n][0]
+        vals = floats if t is float else ints
+        v = vals[eng.choose(vi, range(len(vals)))]
+        probs = []
+        d0 = getattr(Profile(""), n)
+        # a default documented with a decimal point is a float; one documented without it
+        # is a number (several float parameters are documented as "2")
+        ok_t = (float,) if t is float else (int, float)
+        if type(d0) not in ok_t:
+            probs.append(f"default {d0!r} is {type(d0).__name__}, documented "
+                         f"'{doc[n][1]}' ({t.__name__})")
+        for given in (v, str(v)):
+            try:
+                got = Profile("").update({n: given})[n]
+            except AldyException:
+                probs.append(f"{given!r} rejected")
+                continue
+            if type(got) not in ok_t or got != v:
+                probs.append(f"{given!r} stored as {got!r} ({type(got).__name__})")
+        return (n, v), probs
+
+    k = 0
+    for dec, pc, ((n, v), probs) in eng.explore(run, [], max_paths=10000):
+        k += 1
+        ob(res, "doctype: a numeric parameter has its documented type, and a value of that "
+                "type (native or as a string) is stored exactly", "holds" if not probs
+           else "sat")
+        if probs:
+            res["violations"].append({
+                "what": f"parameter {n} (documented {doc[n][0].__name__}, default "
+                        f"{doc[n][1]}): " + "; ".join(probs), "key": "doctype:" + n,
+                "replay": {"kind": "doctype", "name": n, "values": [v]}})
+    seen = {}
+    for v_ in res["violations"]:
+        seen.setdefault(v_["key"], v_)
+    res["violations"] = list(seen.values())
+    res["stats"] = {**dict(eng.stats), "paths": k, "parameters": len(names)}
+    return res
 
 
 def run_config(cfg):
@@ -361,6 +450,21 @@ def replay(o):
         return xcheck.replay(o)
     vals = o["values"]
     k = o["kind"]
+    if k == "doctype":
+        doc = documented_types()
+        t = doc[o["name"]][0]
+        ok_t = (float,) if t is float else (int, float)
+        bad = []
+        if type(getattr(Profile(""), o["name"])) not in ok_t:
+            bad.append("default type")
+        for given in (vals[0], str(vals[0])):
+            try:
+                got = Profile("").update({o["name"]: given})[o["name"]]
+                if type(got) not in ok_t or got != vals[0]:
+                    bad.append(f"{given!r} -> {got!r}")
+            except AldyException:
+                bad.append(f"{given!r} rejected")
+        return bool(bad), f"{o['name']}: {bad}"
     if k == "bool":
         v = vals[0]
         want = spec_bool(v)
